@@ -1,5 +1,5 @@
 SPECIFICATION Spec
 CONSTANTS N = 3  Max = 2  U = 2  STO = 0  ITO = 0  ASTO = 0  AITO = 0  MaxT = 0  MaxOps = 6
-INVARIANTS Capacity Walled OneHolder StatsBalance EventChain AuthSticky Agree Consistent MutantsDie GhostSane
+INVARIANTS Capacity Walled OneHolder StatsBalance EventChain AuthSticky Agree Consistent GhostSane
 VIEW View
 CHECK_DEADLOCK FALSE
